@@ -72,6 +72,28 @@ package diff
 //@   loop 8 complete [C19.cands]
 //@   loop 9 complete [C19.cands]
 //@   loop 10 complete [C19.cands]
+// C09/C19: rename pairings are one-to-one and reach the threshold. gOld/gNew (ghost): the index pair used by rename
+// match k; oOld/oNew (ghost): the rename match that used an index. n1 (ghost): matches made by name.
+//@   ghost n1 int
+//@   ghost gOld map[int]int
+//@   ghost gNew map[int]int
+//@   ghost oOld map[int]int
+//@   ghost oNew map[int]int
+//@   init n1 = 0
+//@   loop 3 update n1 = len(matched)
+//@   loop 3 invariant [C09.pairing] [C19.pairing] n1 == len(matched)
+//@   loop 9 invariant [C09.pairing] [C19.pairing] forall q in 0..len(candidates) :: candidates[q].sim >= threshold
+//@   loop 10 invariant [C09.pairing] [C19.pairing] forall q in 0..len(candidates) :: candidates[q].sim >= threshold
+//@   loop 11 update gOld = ite(len(matched) > prev(len(matched)), store(prev(gOld), prev(len(matched)), c.oldIdx), prev(gOld))
+//@   loop 11 update gNew = ite(len(matched) > prev(len(matched)), store(prev(gNew), prev(len(matched)), c.newIdx), prev(gNew))
+//@   loop 11 update oOld = ite(len(matched) > prev(len(matched)), store(prev(oOld), c.oldIdx, prev(len(matched))), prev(oOld))
+//@   loop 11 update oNew = ite(len(matched) > prev(len(matched)), store(prev(oNew), c.newIdx, prev(len(matched))), prev(oNew))
+//@   loop 11 invariant [C09.pairing] [C19.pairing] n1 <= len(matched)
+//@   loop 11 invariant [C09.pairing] [C19.pairing] forall q in 0..len(candidates) :: candidates[q].sim >= threshold
+//@   loop 11 invariant [C09.pairing] [C19.pairing] forall k in n1..len(matched) :: usedOld[gOld[k]] && oOld[gOld[k]] == k && usedNew[gNew[k]] && oNew[gNew[k]] == k
+//@   loop 11 invariant [C09.pairing] [C19.pairing] forall k in n1..len(matched) :: matched[k].Similarity >= threshold && !matched[k].ByName
+//@   ensures [C09.pairing] [C19.pairing] forall k1, k2 in n1..len(result0) :: k1 != k2 ==> gOld[k1] != gOld[k2] && gNew[k1] != gNew[k2]
+//@   ensures [C09.pairing] [C19.pairing] forall k in n1..len(result0) :: result0[k].Similarity >= threshold && !result0[k].ByName
 
 //@ func sortedResultNames
 //@   noframe
